@@ -81,7 +81,7 @@ def run(pid, tier, seed):
     reqs, meta = [], []
     cli_jobs = []
     try:
-        for mi in range(4 if quick else 40):
+        for mi in range(4 if quick else 400):
             name = "c13mod_%d_%d" % (seed % 1000, mi)
             src, metas = gen_source(chk.rng, 8)
             mod, path = pd.load(name, src)
@@ -157,7 +157,7 @@ def run(pid, tier, seed):
                         chk.nontriv("ret|%s|%s|%s" % (sname, rann, combo))
                         reqs.append(("updateReturn", sname, "0" if rann else "none", ret[1] if ret else "none", yld[1] if yld else "none"))
                         meta.append(("corr.C13.updateReturn", case, gotr))
-                    if len(cli_jobs) < (6 if quick else 60):
+                    if len(cli_jobs) < (6 if quick else 200):
                         cli_jobs.append((name, path, fm, trace, traced, combo))
         for g, (rel, case, got) in zip(drv.ask_many(reqs), meta):
             gm = g if isinstance(g, str) else ((g[0], g[1]) if g[0] == "src" else ("ty", tyconv.canon(g[1])))
